@@ -504,7 +504,7 @@ class Runner:
         buf = [qi - qm] * p
         for x in inputs:
             with np.errstate(all="ignore"):
-                v = (x - qm) if x == x else math.fsum(a * b for a, b in zip(phi, buf))
+                v = (x - qm) if x == x else safe_fsum(a * b for a, b in zip(phi, buf))
             buf = [v] + buf[:-1]
             fill.append(v)
         fa = np.asarray(fill) if fill else np.zeros(0)
@@ -856,6 +856,13 @@ class Runner:
             if (mv != mv) != (nm != nm) or (mv == mv and abs(mv - nm) > tol):
                 ctx.disagree("C17: numpy.nanmean and the model's data mean differ", {"request": trunc(req), "numpy": nm, "model": mv, "tol": tol})
         self.reqs, self.impls, self.cases, self.kinds, self.qreqs, self.mreqs = [], [], [], [], [], []
+
+
+def safe_fsum(it):
+    try:
+        return math.fsum(it)
+    except (OverflowError, ValueError):
+        return float("nan")
 
 
 def trunc(s, n=1500):
